@@ -263,6 +263,12 @@ def r5_formatters(rep, facts):
 def rules(rep, facts):
     if 'toml' in facts.crates and facts.has_method('serde::ser::Serialize', 'toml::value::Value', 'serialize'):
         r1_passes(rep, facts)
+    if 'toml' in facts.crates and 'toml_edit' in facts.crates and {'parse', 'serde'} <= set(facts.crates['toml_edit'].get('features', [])):
+        from .rules_c13 import r3_enum_access
+        from .rules_c07 import r7_forwarding
+        r3_enum_access(rep, facts)
+        rep.relabel('C13/R3', 'C17/R7', 'what the serializers write for enum variants is read back in every spelling: ')
+        r7_forwarding(rep, facts, rid='C17/R8')
     if 'toml' in facts.crates:
         from .rules_c16 import map_identity
         R6 = rep.rule('C17/R6', 'the decoded text equals the value whatever order the serializer emitted the entries in: equality of toml::Map is the '
